@@ -169,6 +169,8 @@ var errGateCancelled = errors.New("timeout: gate wait cancelled by context")
 
 type Harness struct {
 	S *Sim
+	// Canon, when set, replaces the canonical printer for traced values (C03/C18 know sentinel errors).
+	Canon func(types.MalType) string
 }
 
 func argStr(a []types.MalType, i int) string {
@@ -193,6 +195,10 @@ func canonQuiet(a []types.MalType, i int) string {
 //
 //go:norace
 func (h *Harness) Trace(ctx context.Context, a []types.MalType) (types.MalType, error) {
+	if h.Canon != nil && len(a) > 0 {
+		h.S.Rec("trace", h.Canon(a[0]), "", 0)
+		return a[0], nil
+	}
 	h.S.Rec("trace", canonQuiet(a, 0), "", 0)
 	if len(a) > 0 {
 		return a[0], nil
